@@ -3,71 +3,148 @@ C36 — completed entities are ordered by offset, then by descending length.
 Property theorems only (helper lemmas live in TdModel/Lemmas/C36.lean).
 
 `less` is `Facts.C36.less`, the boolean expression of `entitySorter.Less` regenerated from
-/repo/telegram/message/entity/fix.go on every run; `sort.Sort` enters only through its
-contract `SortContract` (permutation + no adjacent inversion).
+/repo/telegram/message/entity/fix.go on every run; `sort.Sort` enters only through its contract
+(`SortContract`: permutation + no adjacent inversion), which it guarantees for a strict weak order.
+
+FULL-STRENGTH STATEMENT (what C36 asks; FALSE on the current tree — defect D8, open known finding):
+
+    theorem less_strict_weak_order : ∀ l, StrictWeakOrderOn less l
+    theorem sorted_spec (sort) (hc : SortContract less sort) (l) :
+        (sort l).Perm l ∧ (sort l).Pairwise (fun a b => a.off < b.off ∨ (a.off = b.off ∧ b.len ≤ a.len))
+
+The source's comparator is `a.off < b.off || a.len > b.len` (`lessOld`): it is not asymmetric, so
+`sort.Sort` promises nothing, and its contract cannot even be met on `[(0,1),(1,5)]`
+(`lessOld_contract_unsatisfiable`).  The repair (compare lengths only on equal offsets) contradicts
+the expectation pinned by the unedited test `TestComplete/BoldPlainBold`, so it is recorded as a
+known finding instead.  Proved below:
+  * `…_partial`: the full statement restricted to `Compatible` lists (no entity starts later than
+    another one and is longer — on these the source's comparator IS the specification's);
+  * the counterexamples;
+  * the full statement for the specification's comparator `specLess` (what holds once repaired).
+Every theorem about the regenerated `less` is also true for a correctly repaired comparator, and
+false for comparators that order some comparable pair differently.
 -/
 import TdModel.Lemmas.C36
 
 namespace TdModel.C36
 
-/-- The comparator in the source is exactly TDLib's order: offset ascending, then length
-descending. -/
-theorem less_spec (a b : Ent) :
-    less a b = true ↔ (a.off < b.off ∨ (a.off = b.off ∧ a.len > b.len)) :=
-  less_iff a b
+/-- The comparator in the source is the specification's (offset ascending, then length descending)
+on every pair except those where `b` starts earlier than `a` and is shorter. -/
+theorem less_spec_partial (a b : Ent) (h : ¬ (b.off < a.off ∧ b.len < a.len)) :
+    less a b = true ↔ (a.off < b.off ∨ (a.off = b.off ∧ a.len > b.len)) := by
+  rw [less_eq_spec a b h]; exact specLess_iff a b
 
-/-- The comparator is a strict weak order (irreflexive, transitive, incomparability is
-transitive) — the precondition under which `sort.Sort` sorts. -/
-theorem less_strict_weak_order :
-    (∀ a, less a a = false) ∧
-    (∀ a b c, less a b = true → less b c = true → less a c = true) ∧
-    (∀ a b c, less a b = false → less b a = false → less b c = false → less c b = false →
-      less a c = false ∧ less c a = false) := by
-  refine ⟨?_, ?_, ?_⟩
-  · intro a
-    cases h : less a a
-    · rfl
-    · have := (less_iff a a).mp h; omega
-  · intro a b c h1 h2
-    have h1 := (less_iff a b).mp h1
-    have h2 := (less_iff b c).mp h2
-    exact (less_iff a c).mpr (by omega)
-  · intro a b c h1 h2 h3 h4
-    have h1 := (not_less_iff_ordered b a).mp h1
-    have h2 := (not_less_iff_ordered a b).mp h2
-    have h3 := (not_less_iff_ordered c b).mp h3
-    have h4 := (not_less_iff_ordered b c).mp h4
-    exact ⟨(not_less_iff_ordered c a).mpr (ordered_trans h3 h1),
-           (not_less_iff_ordered a c).mpr (ordered_trans h2 h4)⟩
+/-- On a compatible list the source's comparator is a strict weak order (the precondition under
+which `sort.Sort` sorts). -/
+theorem less_strict_weak_order_partial (l : List Ent) (hc : Compatible l) : StrictWeakOrderOn less l :=
+  swo_congr (less_eq_spec_on hc) (specLess_swo l)
 
-/-- Any sort that honours `sort.Sort`'s contract for this comparator — in particular
-`entity.SortEntities`, and the list returned by `Builder.Complete`, which is passed through it —
-returns a permutation of its input ordered by (offset ascending, length descending). -/
-theorem sorted_spec (sort : List Ent → List Ent) (hc : SortContract less sort) (l : List Ent) :
+/-- Whatever the input, an output that has no adjacent inversion w.r.t. the source's comparator is
+ordered by (offset ascending, length descending).  (The defect is that `sort.Sort` need not
+produce such an output.) -/
+theorem sort_postcondition_implies_ordered (out : List Ent)
+    (h : AdjSorted (fun a b => less b a = false) out) :
+    out.Pairwise (fun a b => a.off < b.off ∨ (a.off = b.off ∧ b.len ≤ a.len)) :=
+  contract_ordered out h
+
+/-- C36 for compatible inputs: `sort.Sort`'s precondition holds (previous theorem), so its output
+is a permutation without adjacent inversion; then it is ordered as specified, and it is THE ordered
+permutation (equal to the model's insertion sort — what the correspondence run compares). -/
+theorem sorted_spec_partial (l out : List Ent) (_hcompat : Compatible l)
+    (hperm : out.Perm l) (hadj : AdjSorted (fun a b => less b a = false) out) :
+    out.Pairwise (fun a b => a.off < b.off ∨ (a.off = b.off ∧ b.len ≤ a.len)) ∧
+    out = isort specLess l :=
+  ⟨contract_ordered out hadj,
+   ordered_perm_unique _ _ (hperm.trans (isort_perm specLess l).symm) (contract_ordered out hadj) (isort_pairwise l)⟩
+
+/-- Non-vacuity of `sorted_spec_partial`: on compatible inputs the contract is satisfiable — the
+driver's `sortEntities` (insertion sort with the SOURCE's comparator) meets it. -/
+theorem isort_contract_partial (l : List Ent) (hc : Compatible l) :
+    (sortEntities l).Perm l ∧ AdjSorted (fun a b => less b a = false) (sortEntities l) ∧
+    sortEntities l = isort specLess l := by
+  have heq : sortEntities l = isort specLess l := isort_congr less specLess l (less_eq_spec_on hc)
+  refine ⟨isort_perm less l, ?_, heq⟩
+  rw [heq]
+  have hc' : Compatible (isort specLess l) := compatible_perm (isort_perm specLess l) hc
+  refine adj_congr_mem _ ?_ (pairwise_adj _ (isort_pairwise l))
+  intro a ha b hb hab
+  rw [less_eq_spec_on hc' b hb a ha]
+  exact (not_specLess_iff_ordered a b).mpr hab
+
+/-- D8: the pinned comparator is not a strict weak order — `(5,10)` and `(0,2)` are each less than
+the other. -/
+theorem lessOld_not_strict_weak_order : ¬ StrictWeakOrderOn lessOld [⟨5, 10⟩, ⟨0, 2⟩] := by
+  intro ⟨hi, ht, _⟩
+  have h1 := ht ⟨5, 10⟩ (by simp) ⟨0, 2⟩ (by simp) ⟨5, 10⟩ (by simp) (by decide) (by decide)
+  have h2 := hi ⟨5, 10⟩ (by simp)
+  rw [h1] at h2
+  cases h2
+
+/-- D8: for the pinned comparator `sort.Sort`'s postcondition cannot be met at all on
+`[(0,1),(1,5)]` — whichever way the two entities are arranged, one is "less" than its predecessor. -/
+theorem lessOld_contract_unsatisfiable :
+    ¬ ∃ out : List Ent, out.Perm [⟨0, 1⟩, ⟨1, 5⟩] ∧ AdjSorted (fun a b => lessOld b a = false) out := by
+  intro ⟨out, hp, hadj⟩
+  have hlen := hp.length_eq
+  match out, hlen, hp, hadj with
+  | [x, y], _, hp, hadj =>
+    have hx : x ∈ [(⟨0, 1⟩ : Ent), ⟨1, 5⟩] := hp.subset (List.Mem.head _)
+    have hy : y ∈ [(⟨0, 1⟩ : Ent), ⟨1, 5⟩] := hp.subset (List.Mem.tail _ (List.Mem.head _))
+    have h1 : (⟨0, 1⟩ : Ent) ∈ [x, y] := hp.symm.subset (List.Mem.head _)
+    have h2 : (⟨1, 5⟩ : Ent) ∈ [x, y] := hp.symm.subset (List.Mem.tail _ (List.Mem.head _))
+    have hxy : lessOld y x = false := hadj.1
+    simp only [List.mem_cons, List.not_mem_nil, or_false] at hx hy h1 h2
+    rcases hx with rfl | rfl <;> rcases hy with rfl | rfl
+    · simp at h2
+    · exact absurd hxy (by decide)
+    · exact absurd hxy (by decide)
+    · simp at h1
+
+/-- The same for the regenerated comparator, as long as the source is the pinned expression
+(`lessIsPinned` is regenerated; once the source is repaired this statement is vacuous). -/
+theorem pinned_source_not_strict_weak_order (h : Facts.C36.lessIsPinned = true) :
+    ¬ StrictWeakOrderOn less [⟨5, 10⟩, ⟨0, 2⟩] := by
+  first
+  | exact absurd h (by decide)
+  | (intro ⟨hi, ht, _⟩
+     have h1 := ht ⟨5, 10⟩ (by simp) ⟨0, 2⟩ (by simp) ⟨5, 10⟩ (by simp) (by decide) (by decide)
+     have h2 := hi ⟨5, 10⟩ (by simp)
+     rw [h1] at h2
+     cases h2)
+
+/-- The output observed from `entity.SortEntities` on the D8 witness `(5,10)(0,2)(3,1)(0,7)(2,9)`
+(replayed on the implementation by the harness on every run) is a permutation of the input that
+violates the property. -/
+theorem impl_output_counterexample :
+    holds [⟨2, 9⟩, ⟨0, 7⟩, ⟨0, 2⟩, ⟨3, 1⟩, ⟨5, 10⟩] = false ∧
+    compatible [⟨5, 10⟩, ⟨0, 2⟩, ⟨3, 1⟩, ⟨0, 7⟩, ⟨2, 9⟩] = false ∧
+    isort specLess [⟨5, 10⟩, ⟨0, 2⟩, ⟨3, 1⟩, ⟨0, 7⟩, ⟨2, 9⟩] = [⟨0, 7⟩, ⟨0, 2⟩, ⟨2, 9⟩, ⟨3, 1⟩, ⟨5, 10⟩] := by
+  decide
+
+/-- The specification's comparator is a strict weak order on every list. -/
+theorem spec_strict_weak_order (l : List Ent) : StrictWeakOrderOn specLess l := specLess_swo l
+
+/-- Full-strength C36 for the specification's comparator (i.e. for the repaired code): any sort
+honouring `sort.Sort`'s contract returns an ordered permutation, and that result is unique. -/
+theorem spec_sorted (sort : List Ent → List Ent) (hc : SortContract specLess sort) (l : List Ent) :
     (sort l).Perm l ∧
-    (sort l).Pairwise (fun a b => a.off < b.off ∨ (a.off = b.off ∧ b.len ≤ a.len)) :=
-  ⟨(hc l).1, contract_ordered _ (hc l).2⟩
+    (sort l).Pairwise (fun a b => a.off < b.off ∨ (a.off = b.off ∧ b.len ≤ a.len)) ∧
+    sort l = isort specLess l :=
+  ⟨(hc l).1, spec_contract_ordered _ (hc l).2,
+   ordered_perm_unique _ _ ((hc l).1.trans (isort_perm specLess l).symm)
+     (spec_contract_ordered _ (hc l).2) (isort_pairwise l)⟩
 
-/-- The contract is satisfiable: the driver's executable sort meets it. -/
-theorem isort_contract : SortContract less sortEntities := fun l =>
-  ⟨isort_perm less l,
-   adj_congr (fun a b h => (not_less_iff_ordered a b).mpr h) _ (pairwise_adj _ (isort_pairwise l))⟩
+/-- …and that contract is satisfiable. -/
+theorem spec_isort_contract : SortContract specLess (isort specLess) := fun l =>
+  ⟨isort_perm specLess l,
+   adj_congr (fun a b h => (not_specLess_iff_ordered a b).mpr h) _ (pairwise_adj _ (isort_pairwise l))⟩
 
-/-- The ordered result is unique as a list of `(off,len)` pairs: whatever algorithm `sort.Sort`
-uses, its output equals the model's (this is what the correspondence run compares). -/
-theorem sorted_unique (sort : List Ent → List Ent) (hc : SortContract less sort) (l : List Ent) :
-    sort l = sortEntities l :=
-  ordered_perm_unique _ _ ((hc l).1.trans (isort_perm less l).symm)
-    (contract_ordered _ (hc l).2) (isort_pairwise l)
-
-/-- The decidable monitor run by the driver on the implementation's output is the property. -/
+/-- The decidable monitors run by the driver are the property / the input class. -/
 theorem holds_spec (l : List Ent) : holds l = true ↔ l.Pairwise Ordered :=
   (holds_iff l).trans ⟨adj_pairwise (r := Ordered) (fun _ _ _ h1 h2 => ordered_trans h1 h2) l, pairwise_adj l⟩
 
-/-- The comparator of the pinned tree (`a.off < b.off || a.len > b.len`) is not asymmetric, hence
-no strict weak order: D8. -/
-theorem lessOld_counterexample :
-    lessOld ⟨5, 10⟩ ⟨0, 2⟩ = true ∧ lessOld ⟨0, 2⟩ ⟨5, 10⟩ = true := by decide
+theorem compatible_spec (l : List Ent) :
+    compatible l = true ↔ ∀ a ∈ l, ∀ b ∈ l, b.off < a.off → a.len ≤ b.len := compatible_iff l
 
 /-- The call sites that make the contract apply: `SortEntities` is `sort.Sort(entitySorter(..))`,
 `Len`/`Swap` are the canonical ones, `Complete` sorts the slice it returns. -/
@@ -75,8 +152,9 @@ theorem sort_call_facts :
     Facts.C36.sortViaStdlib = true ∧ Facts.C36.lenIsLen = true ∧ Facts.C36.swapIsSwap = true ∧
     Facts.C36.completeCallsSort = true := by decide
 
-/-- Non-vacuity: the witness list of D8, with ties, is sorted as specified. -/
-example : sortEntities [⟨5, 10⟩, ⟨0, 2⟩, ⟨3, 1⟩, ⟨0, 7⟩, ⟨2, 9⟩, ⟨0, 7⟩] =
-    [⟨0, 7⟩, ⟨0, 7⟩, ⟨0, 2⟩, ⟨2, 9⟩, ⟨3, 1⟩, ⟨5, 10⟩] := by decide
+/-- Non-vacuity: a compatible list with ties (nested spans, equal ranges) is sorted as specified by
+the source's comparator. -/
+example : compatible [⟨3, 1⟩, ⟨0, 7⟩, ⟨2, 2⟩, ⟨0, 7⟩, ⟨0, 9⟩] = true ∧
+    sortEntities [⟨3, 1⟩, ⟨0, 7⟩, ⟨2, 2⟩, ⟨0, 7⟩, ⟨0, 9⟩] = [⟨0, 9⟩, ⟨0, 7⟩, ⟨0, 7⟩, ⟨2, 2⟩, ⟨3, 1⟩] := by decide
 
 end TdModel.C36
